@@ -87,6 +87,38 @@ def units():
         "rcp_safe_never_opposite_sign": "IMP($0 > 0, RET >= 0) && IMP($0 < 0, RET <= 0)"})
     common_specs(U, True)
     us.append(U)
+    # default (SIMD) configuration, rcp / rsqrt AS WRITTEN: the SSE intrinsics are read on lane 0 as float operations, the two
+    # estimate instructions are nondeterministic within the documented hardware error
+    S = Unit("c07_sse", "units/c07_scalar.cpp", helpers=HELPERS, stubs=SSE_STUBS, opts=dict(models=sse_models(), opaque_types={"__attribute__((__vector_size__(4 * sizeof(float)))) float": "float", "__m128": "float"}))
+    S.stub("verif_sse_rsqrt_est / verif_sse_rcp_est", "ASSUMED hardware contract of _mm_rsqrt_ss / _mm_rcp_ss: relative error <= 1.5 * 2^-12 (Intel SDM), lane 0")
+    # bit-precise counterexample SEARCH over the whole stated range 2^-126 <= x < 2^126 (incl. the outermost binades the rounding-model
+    # proof below leaves out): six float multiplications do not finish as a proof; a body that overflows or loses the accuracy gives
+    # natively replayable inputs
+    SEARCH_T = 600 if os.environ.get("VERIF_TIER_EFFECTIVE") == "thorough" else 60
+    S.fn("rsqrt__f32", variant="float_search", requires=["$0 >= 0x1p-126f && $0 < 0x1p126f"], timeout=SEARCH_T, refute_only=True, solver=["--sat-solver", "cadical"], replay_native=SSE_REPLAY % dict(fn="rsqrt", ref="1.0 / std::sqrt((double)x)", cond="x >= 0x1p-126f && x < 0x1p126f"), ensures={
+        "rsqrt_within_2_pow_minus_20_of_one_over_sqrt_x": "FINITE_F(RET) && RET > 0.0f && (double)RET * (double)RET * (double)$0 >= 0.99999809 && (double)RET * (double)RET * (double)$0 <= 1.00000191"})
+    S.fn("rcp__f32", variant="float_search", requires=["($0 >= 0x1p-126f && $0 < 0x1p126f) || ($0 <= -0x1p-126f && $0 > -0x1p126f)"], timeout=SEARCH_T, refute_only=True, solver=["--sat-solver", "cadical"], replay_native=SSE_REPLAY % dict(fn="rcp", ref="1.0 / (double)x", cond="std::fabs(x) >= 0x1p-126f && std::fabs(x) < 0x1p126f"), ensures={
+        "rcp_within_2_pow_minus_20_of_one_over_x": "FINITE_F(RET) && (double)RET * (double)$0 >= 1.0 - 0x1p-20 && (double)RET * (double)$0 <= 1.0 + 0x1p-20"})
+    # ... the same two functions over the reals with the standard model of rounding: every binary32 operation of the body is the exact
+    # result times (1 + d), |d| <= 2^-24, with the OBLIGATIONS that the exact result does not overflow and is zero or normal. Proved
+    # for 2^-125 <= x <= 2^125 (in the two outermost binades one intermediate is subnormal: no relative bound; those are left to the
+    # bit-precise search above)
+    VEC = "__attribute__((__vector_size__(4 * sizeof(float)))) float"
+    def est_rsqrt(ev, st, a):
+        r = ev.newsym("rsqrt_est")
+        ev.side.append(z3.And(r > 0, r * r * a >= z3.RealVal("0.99926771"), r * r * a <= z3.RealVal("1.00073272")))
+        return r
+    def est_rcp(ev, st, a):
+        r = ev.newsym("rcp_est")
+        ev.side.append(z3.And(r * a >= z3.RealVal("0.99963378"), r * a <= z3.RealVal("1.00036622")))
+        return r
+    MM = {"verif_sse_rsqrt_est": est_rsqrt, "verif_sse_rcp_est": est_rcp}
+    LO, HI = z3.Q(1, 2 ** 125), z3.RealVal(2 ** 125)
+    S.mfn("rsqrt__f32", "real", {"rsqrt_within_2_pow_minus_20_of_one_over_sqrt_x__rounding_model": lambda P, RET, Q: z3.And(RET > 0, RET * RET * P[0] >= z3.RealVal("0.99999809"), RET * RET * P[0] <= z3.RealVal("1.00000191"))},
+          requires=lambda P: [P[0] >= LO, P[0] <= HI], models=MM, rounding=True, rounding_types=(VEC, "__m128"), timeout=120)
+    S.mfn("rcp__f32", "real", {"rcp_within_2_pow_minus_20_of_one_over_x__rounding_model": lambda P, RET, Q: z3.And(RET * P[0] >= 1 - z3.Q(1, 2 ** 20), RET * P[0] <= 1 + z3.Q(1, 2 ** 20))},
+          requires=lambda P: [z3.Or(z3.And(P[0] >= LO, P[0] <= HI), z3.And(P[0] <= -LO, P[0] >= -HI))], models=MM, rounding=True, rounding_types=(VEC, "__m128"), timeout=120)
+    us.append(S)
     # RKCOMMON_NO_SIMD configuration: rcp is one IEEE division; everything bit-precise
     V = Unit("c07_nosimd", "units/c07_scalar.cpp", defines=["RKCOMMON_NO_SIMD"], helpers=HELPERS)
     V.fn("rcp_safe_t__f32", requires=["FINITE_F($0)"], inline=["rcp__f32"], ensures={
@@ -115,3 +147,65 @@ META = dict(
                  "divRoundUp semantic clause: machine arithmetic treated as mathematical (valid when a+b-1 does not overflow)"],
     unverified=["rcp/rsqrt relative error 2^-20 (both builds)", "linear_to_srgb accuracy", "pcg32_biased_float_distribution / uniform_real_distribution range and reproducibility"],
 )
+
+
+# ---------------------------------------------------------------- SSE scalar-lane model (rcp / rsqrt as written)
+SSE_STUBS = """
+/* ASSUMED hardware contract of the SSE estimate instructions (Intel SDM: |relative error| <= 1.5 * 2^-12), lane 0 only:
+ * the estimate is a nondeterministic float whose square times the argument (rsqrt) / whose product with the argument (rcp)
+ * is within the documented relative error of 1; exact for the products formed in double (24+24 bit significands). */
+float verif_sse_rsqrt_est(float a)
+{
+  float r = nondet_float();
+  double p = (double)r * (double)r;             /* exact */
+  double q = p * (double)a;                     /* one rounding, 2^-53 */
+  __CPROVER_assume(r > 0.0f && r == r && q >= 0.99926771 && q <= 1.00073272);   /* (1 -+ 1.5*2^-12)^2 widened by 1e-8 */
+  return r;
+}
+float verif_sse_rcp_est(float a)
+{
+  float r = nondet_float();
+  double q = (double)r * (double)a;             /* exact */
+  __CPROVER_assume(r == r && q >= 0.99963378 && q <= 1.00036622);                /* 1 -+ 1.5*2^-12 widened by 1e-8 */
+  return r;
+}
+"""
+
+
+SSE_REPLAY = """
+int main()
+{
+  /* the counterexample's argument, then a sweep over every binade of the stated range: the real %(fn)s (with the real SSE estimate
+   * instruction of this machine) against the double-precision reference */
+  float cex = IN_in_x; bool ok = true; int shown = 0;
+  for (int k = -1; k < 253 * 64; k++) {
+    float x = k < 0 ? cex : std::ldexp(1.0f + (k %% 64) / 64.0f, -126 + k / 64);
+    if (!(%(cond)s)) continue;
+    float got = rkcommon::math::%(fn)s(x); double ref = %(ref)s;
+    double rel = std::fabs(((double)got - ref) / ref);
+    if (!(rel <= 0x1p-20)) { ok = false; if (shown++ < 5) printf("%(fn)s(%%a) = %%a, reference %%a, relative error %%g > 2^-20\\n", x, got, ref, rel); }
+  }
+  printf("REPLAY RESULT: %%s\\n", ok ? "not reproduced" : "violation reproduced on real code");
+  return ok ? 0 : 1;
+}
+"""
+
+
+def sse_models():
+    from cxx2c import X, parse_type
+    F = parse_type("float")
+    def un(fn):
+        def h(tr, fid, info, e, args, obj):
+            tr.rule("SSE scalar lane -> float")
+            if fn is None:
+                return tr.rv(args[0])
+            tr.cur.calls[fn] = True
+            return X("call", fn, [tr.rv(args[0])], ty=F)
+        return h
+    def bin_(op):
+        def h(tr, fid, info, e, args, obj):
+            tr.rule("SSE scalar lane -> float")
+            return X("bin", op, tr.rv(args[0]), tr.rv(args[1]), ty=F)
+        return h
+    return {"_mm_set_ss": un(None), "_mm_cvtss_f32": un(None), "_mm_rsqrt_ss": un("verif_sse_rsqrt_est"), "_mm_rcp_ss": un("verif_sse_rcp_est"),
+            "_mm_mul_ss": bin_("*"), "_mm_add_ss": bin_("+"), "_mm_sub_ss": bin_("-")}
